@@ -187,7 +187,9 @@ def rat_close(x, r, square=False):
     return abs(y - want) <= 1e-9 * max(1.0, abs(want))
 
 
-def group_call(side, kidx, vcol_idx, funs, variant, method, calls):
+def group_call(side, kidx, vcol_idx, funs, variant, method, calls, second=None):
+    """second: (column index, mode) - aggregate a second column in the same call;
+    mode 'stored' (by name / object), 'external' (a vector not stored in the table, same name as the first)"""
     over, _ = key_args(side, kidx, variant % 3)
     if variant % 2 and not isinstance(over, list):
         over = [over]
@@ -195,7 +197,17 @@ def group_call(side, kidx, vcol_idx, funs, variant, method, calls):
     v = vname if variant % 3 == 0 else side.table.cols()[vcol_idx]
     if variant % 3 == 2:
         v = Vector(list(side.cols[vcol_idx]), name=vname)      # a vector not stored in the table
-    kw = {f + "_over": (v if variant % 2 == 0 else [v]) for f in funs}
+    if second is not None:
+        sidx, mode = second
+        if mode == "external":
+            w = Vector(list(side.cols[sidx]), name=vname)       # same NAME as the first column, different values
+        else:
+            w = side.table.cols()[sidx]
+        if isinstance(v, str):
+            v = side.table.cols()[vcol_idx]
+        kw = {f + "_over": [v, w] for f in funs}
+    else:
+        kw = {f + "_over": (v if variant % 2 == 0 else [v]) for f in funs}
 
     def rec(vals):
         calls.append(list(vals))
@@ -259,6 +271,40 @@ def replay_group(cases_path, out_path):
                 if list(res.column_names()[:nk]) != names[:nk]:
                     F.add("keys_first", c, res.column_names(), names[:nk], info)
                 mon.see(res, "aggregate result", rule=True)
+        # ---------------- two aggregated columns in ONE call: stored under another name, stored under the SAME
+        # name (duplicate column names), or an external vector carrying the same name
+        if K and "V2" in c:
+            mode = ["other_name", "same_name", "external"][n % 3]
+            names2 = names[:nk] + ["v", "w" if mode == "other_name" else "v"]
+            rows2 = [list(k) + [V[i], c["V2"][i]] for i, k in enumerate(K)]
+            S2 = Side(rows2, nk + 2, [tag] * nk + ["int", "int"], [pal] * nk + [0, 0], names2)
+            f2 = funs[:2]
+            for method in ("aggregate", "window"):
+                calls2 = []
+                st, res, err = outcome_of(lambda: group_call(S2, list(range(nk)), nk, f2, 1, method, calls2,
+                                                             second=(nk + 1, "external" if mode == "external" else "stored")))
+                executed += 1
+                info2 = {**info, "second_column": mode, "method": method, "funs": f2}
+                if st != "ok":
+                    F.add("agg_value", c, method + " raised " + err, "a table", info2)
+                    continue
+                # outputs follow the key columns in call order: for each function, first column then second
+                outcols = [list(x) for x in res.cols()][nk:]
+                k = 0
+                order = [f for f in FUNS if f in f2]
+                for f in order:
+                    for which, suffix in ((0, ""), (1, "2")):
+                        if k >= len(outcols):
+                            F.add("agg_value", c, "missing output column", f + suffix, info2)
+                            break
+                        exp = c[SPEC_FUN[f] + suffix]
+                        if method == "window":
+                            exp = [exp[g - 1] for g in c["gidx"]]
+                        col = outcols[k]
+                        k += 1
+                        if len(col) != len(exp) or not all(rat_close(col[i], exp[i], f == "stdev") for i in range(len(exp))):
+                            F.add("agg_value" if method == "aggregate" else "window_value", c,
+                                  {f + suffix: col}, {f + suffix: exp}, info2)
         # ---------------- window
         calls = []
         st, res, err = outcome_of(lambda: group_call(S, list(range(nk)), nk, funs, variant, "window", calls))
